@@ -520,6 +520,34 @@ func (f *Frame) makeCandidates(l *Loop) {
 			return Forall([]Term{r}, Imp(Lt(r, preA), Eq(Select(cur, r), Select(preC, r))), []Term{Select(cur, r)})
 		})
 	}
+	// arrays that existed before the loop, other than those of loop-carried
+	// slices, are unchanged
+	for _, k := range names {
+		k := k
+		if !strings.HasPrefix(k, "E|") {
+			continue
+		}
+		var sl []*ssa.Phi
+		for _, p := range l.phis {
+			if st, ok := p.Type().Underlying().(*types.Slice); ok && strings.HasPrefix(k, "E|"+typeKey(st.Elem())+"|") {
+				sl = append(sl, p)
+			}
+		}
+		if len(sl) == 0 {
+			continue
+		}
+		preC := vc.get(pre, k)
+		preA := pre.alloc
+		mk1("frameLx:"+k, func(st *State, phi map[*ssa.Phi]Val) Term {
+			r := Term{"r!q", SInt}
+			cur := vc.get(st, k)
+			var ex []Term
+			for _, p := range sl {
+				ex = append(ex, Eq(r, phi[p].arr()))
+			}
+			return Forall([]Term{r}, Imp(And(Lt(r, preA), Not(Or(ex...))), Eq(Select(cur, r), Select(preC, r))), []Term{Select(cur, r)})
+		})
+	}
 	for _, key := range gorder {
 		members := groups[key]
 		if len(members) == 1 {
@@ -562,6 +590,14 @@ func (f *Frame) makeCandidates(l *Loop) {
 				return vc.mineOrNil(st, phi[p].one())
 			})
 		case *types.Slice:
+			// an append loop: the slice keeps its initial array or moves to one allocated in the loop
+			if init, ok := l.prePhi[p]; ok && len(init.L) == 3 {
+				initArr := init.arr()
+				preA := l.pre.alloc
+				mk1("arrInitOrNew:"+p.Name(), func(st *State, phi map[*ssa.Phi]Val) Term {
+					return Or(Eq(phi[p].arr(), initArr), Ge(phi[p].arr(), preA))
+				})
+			}
 			mk1("freshArr:"+p.Name(), func(st *State, phi map[*ssa.Phi]Val) Term {
 				return vc.mineOrNil(st, phi[p].arr())
 			})
